@@ -14,7 +14,7 @@ import (
 func init() {
 	register(&Pack{ID: "C07", Run: runC07, Meta: core.Meta{
 		Level:       "other",
-		Explanation: "Which elements fail is a run-time quantity; what a stage does when one fails is shape. For Emit, Map, FMap, Unfold (pipe) and Map, FMap (fork) every path of the stage goroutine on which the user function returned an error must contain exactly one call of the catch role with (the stage's ctx, that very error, the stage's own error channel), no send on the value output and no second application; catch==false must exit, catch==true must return to the loop head; paths without error must not call catch. The closed-world implementations of the catch/errch roles are summarised from their paths (fail-fast: one plain send of the error, constant false, error channel of constant capacity >= 1; try: one select {exx<-err | <-ctx.Done()}, true iff sent, error channel of the requested capacity) and tied to the exported constructors (Lift/Pure/LiftF => fail-fast, Try/TryF => try); pipe and fork siblings must agree; the wrappers' Apply must call the wrapped function exactly once with the arguments in order. First failure under Lift => one error, both channels closed, nothing processed further; under Try => one error per failing element, normal output otherwise, order kept (single goroutine) - derived on paper from these facts. After catch returned false nothing further is received, sent, started or called before the stage leaves; Unfold delivers its seed before the step that may fail is applied (shared with C11).",
+		Explanation: "Which elements fail is a run-time quantity; what a stage does when one fails is shape. For Emit, Map, FMap, Unfold (pipe) and Map, FMap (fork) every path of the stage goroutine on which the user function returned an error must contain exactly one call of the catch role with (the stage's ctx, that very error, the stage's own error channel), no send on the value output and no second application; catch==false must exit, catch==true must return to the loop head; paths without error must not call catch. The closed-world implementations of the catch/errch roles are summarised from their paths (fail-fast: one plain send of the error, constant false, error channel of constant capacity >= 1; try: one select {exx<-err | <-ctx.Done()}, true iff sent, error channel of the requested capacity) and tied to the exported constructors (Lift/Pure/LiftF => fail-fast, Try/TryF => try); pipe and fork siblings must agree; the wrappers' Apply must call the wrapped function exactly once with the arguments in order. First failure under Lift => one error, both channels closed, nothing processed further; under Try => one error per failing element, normal output otherwise, order kept (single goroutine) - derived on paper from these facts. After catch returned false nothing further is received, sent, started or called before the stage leaves; Unfold delivers its seed before the step that may fail is applied (shared with C11). errch-request and catch-false-exits (after catch answered false nothing is received, sent, started or called, deferred functions included) are shared with C06.",
 		RuleText:    "one obligation per (stage or implementation, rule)",
 		TrustedBase: []string{"go/ssa", "path engine P", "closed-world argument: pipe.F/FF and fork.F/FF have unexported methods, only their own package can implement them"},
 	}})
